@@ -7,6 +7,7 @@ CONSTANTS
   MinPre = 0
   MinTotal = 0
   Leaky = TRUE
+  ForkBug = "none"
   Alphabet <- CoreCmds
   PreAlphabet <- CoreCmds
   Kinds <- AllKinds
